@@ -23,11 +23,46 @@ pub fn to_spec(p: &Placement, hash_seed: u64) -> RunSpec {
     if p.via_config_flag {
         spec.files.push(("gc.conf".into(), Blob::from(e.gitconfig.clone())));
     } else {
-        spec.gitconfig = Some(e.gitconfig.clone());
+        // which file(s) the settings live in must not matter (and --no-gitconfig cuts every one of
+        // them): the global file, the XDG file, a file pulled in by include.path, the repository's
+        // own config, or custom sections globally and the main section in the repository
+        let repo_skeleton = |spec: &mut RunSpec, text: String| {
+            spec.files.push((".git/HEAD".into(), Blob::from("ref: refs/heads/main\n".to_string())));
+            spec.files.push((".git/objects/.keep".into(), Blob::default()));
+            spec.files.push((".git/refs/heads/.keep".into(), Blob::default()));
+            spec.files.push((".git/config".into(), Blob::from(format!("[core]\n\trepositoryformatversion = 0\n\tbare = false\n{}", text))));
+        };
+        match gitconfig_location(p) {
+            "xdg" => spec.files.push(("xdg:/git/config".into(), Blob::from(e.gitconfig.clone()))),
+            "included" => {
+                spec.gitconfig = Some("[include]\n\tpath = delta-settings.inc\n[core]\n\tpager = cat\n".to_string());
+                spec.files.push(("~/delta-settings.inc".into(), Blob::from(e.gitconfig.clone())));
+            }
+            "repo" => repo_skeleton(&mut spec, e.gitconfig.clone()),
+            "split" => {
+                let mut custom = String::new();
+                for (n, s) in &p.custom {
+                    custom.push_str(&section_text(Some(n), &p.probe, s));
+                }
+                spec.gitconfig = Some(custom);
+                let main_empty = p.main.value.is_none() && p.main.features.is_none() && p.main.flags.is_empty();
+                repo_skeleton(&mut spec, if main_empty { String::new() } else { section_text(None, &p.probe, &p.main) });
+            }
+            _ => spec.gitconfig = Some(e.gitconfig.clone()),
+        }
     }
     spec.args = e.args;
     spec.env = e.env;
     spec
+}
+
+/// A function of the placement (replay files carry the placement only).
+pub fn gitconfig_location(p: &Placement) -> &'static str {
+    if p.via_config_flag {
+        return "--config";
+    }
+    let h = simcore::rng::fnv64(format!("{}|{:?}|{}", p.probe, p.sources, p.custom.len()).as_bytes());
+    ["home", "home", "xdg", "included", "repo", "split"][(h % 6) as usize]
 }
 
 // ---------------------------------------------------------------------------
@@ -304,8 +339,11 @@ pub fn main_c13(env: &Env, tier: &str, seed: u64, replay: Option<&str>) -> i32 {
     }
     ev.evaluations = runs;
     ev.distinct_nontrivial = distinct.len() as u64;
-    ev.rule = "one evaluation = one `delta ... --show-config` execution of the real binary with a generated gitconfig/args/environment under one hash seed; a placement sets one probe option from 1-5 sources drawn from 27 source kinds; the lattice part enumerates every single kind and every unordered pair of kinds for each of 11 probe options (both construction orders) plus --no-gitconfig against every kind; the rest is seeded sampling. distinct_nontrivial counts distinct placements (every placement has at least one source, i.e. something for precedence to decide).".into();
+    ev.rule = "one evaluation = one `delta ... --show-config` execution of the real binary with a generated gitconfig/args/environment under one hash seed; a placement sets one probe option from 1-5 sources drawn from 27 source kinds; the gitconfig text lives, as a function of the placement, in $HOME/.gitconfig, $XDG_CONFIG_HOME/git/config, a file pulled in by include.path, the config of a repository found from the working directory, custom sections globally + main section in the repository, or a file named by --config; the lattice part enumerates every single kind and every unordered pair of kinds for each of 11 probe options (both construction orders) plus --no-gitconfig against every kind; the rest is seeded sampling. distinct_nontrivial counts distinct placements (every placement has at least one source, i.e. something for precedence to decide).".into();
     ev.counters.insert("placements".into(), placements.len() as u64);
+    for pl in &placements {
+        *ev.counters.entry(format!("gitconfig_location.{}", gitconfig_location(pl))).or_default() += 1;
+    }
     ev.counters.insert("lattice_placements".into(), n_lattice as u64);
     ev.counters.insert("hash_seeds_per_placement".into(), (hash_seeds.len() + 1) as u64);
     ev.counters.insert("distinct_source_kind_pairs_covered".into(), kind_pairs.len() as u64);
